@@ -69,7 +69,7 @@ PROPS = {
 },
     "C02": {
         "lean_modules": ["InTotoModel.Props.C02", "InTotoModel.Props.NonVacuity", "InTotoModel.Props.Spec"],
-        "claim": "verify = ok implies that the step names are pairwise distinct (a second step of a name is an error since fix c94147d; the model's stage 4 mirrors it, so the main theorem needs no hypothesis on names any more) and, for every step, max(1,threshold) distinct key ids that are in the step's pubkeys, in the key table, and have a file <step>.<prefix8>.link carrying a signature of that id valid under that key; evidence of unlisted keys and files filed under a prefix none of their signatures carries never count. Lean theorems (induction over the directory listing and the link tables); end-to-end fault injection on the real code.",
+        "claim": "verify = ok implies that the step names are pairwise distinct (a second step of a name is an error since fix c94147d; the model's stage 4 mirrors it, so the main theorem needs no hypothesis on names any more) and, for every step, max(1,threshold) distinct key ids that are in the step's pubkeys, in the key table, and have a file <step>.<prefix8>.link carrying a signature of that id valid under that key; evidence of unlisted keys and files filed under a prefix none of their signatures carries never count. Lean theorems (induction over the directory listing and the link tables); end-to-end fault injection on the real code. Props/Spec.lean adds both directions at once: c02_success_iff_every_clause_holds - verification succeeds exactly when every clause of the order-free specification Spec/Verify.lean holds (owners signed, unexpired, distinct usable step names, readable evidence, enough counted evidence per step, every counted piece standing for a link, agreement, representatives and rules, inspections and their rules), for every valid family of iteration orders.",
         "level_note": "Trusted: Lean kernel; hypotheses stated in the theorem: distinct step names, key table files keys under their own id (C12), glob-safe step names.",
         "technique": "Lean 4 theorems about an executable model + model/implementation correspondence check (differential run with property oracle)",
         "rule": "cases = end-to-end scenarios: a valid layout + link directory (real keys of every scheme, real signatures, optional sub-layouts and inspections) materialised in a scratch directory, usually with one injected fault whose effect is known by construction; ops = verify(scenario with constructed signature validity, observed inspection outcomes) run through the real in_toto_verify with a pinned clock; the model is evaluated under two opposite hash-map iteration orders (delegated evidence visited as the code does) and the sequences of inspection commands are compared in order, in failing runs too; distinct = distinct scenario; all are non-trivial (they get past argument parsing into stage 1)",
@@ -169,7 +169,7 @@ PROPS = {
 },
     "C14": {
         "claim": "Panic-freedom of the modelled code is proved in Lean for every input: the whole verification pipeline over arbitrary link directories (including the summary's table lookups), rule application on arbitrary paths, block verification, PAE unpacking and KeyId::prefix; the inventory of every unwrap/expect/panic!/assert!/index site in the crate is regenerated from the source on every run and must be fully classified. Library code (serde_json, ring, derp, pem, glob, chrono, walkdir) is fuzzed only: byte-level mutations of valid documents and raw bytes into every parser and key importer, nesting beyond the recursion limit, extreme numbers, and verification over link directories seeded with hostile files.",
-        "level_note": "Partial by nature: a proof covers the repo's own slicing/indexing/unwrap sites through their models; absence of panics, aborts, stack overflow and non-termination in the libraries is sampled, not proved. Delegation recursion is bounded by PATH_MAX (argued, not proved).",
+        "level_note": "Partial by nature: a proof covers the repo's own slicing/indexing/unwrap sites through their models; absence of panics, aborts, stack overflow and non-termination in the libraries is sampled, not proved. The recursion into sub-layouts is one directory level per delegation: c14_recursion_ends_with_the_directory_tree proves that the model's result no longer depends on the fuel once it exceeds the depth of the link directory plus one (in the real file system the depth is bounded by PATH_MAX; symbolic-link cycles are exercised on the implementation in child processes).",
         "technique": "Lean 4 no-panic theorems about the executable models + panic-site inventory translated from the Rust source on every run; fuzz streams as supporting evidence for library code",
         "translate": ["panics.py"],
         "rule": "ops = prefix8 on key ids the parser accepts (ASCII and non-ASCII, 64 bytes); fuzz cases (not ops) = mutated valid layouts/links/blocks/keys/statements/predicates/PAE, random bytes and generated JSON into 8 parsers and 12 key-importer entry points, deep nesting, extreme numbers, hostile link directories through in_toto_verify; distinct = distinct op; non-trivial = 64-byte ids",
